@@ -154,6 +154,8 @@ def run(chk, tier, seed, replay=None):
             o['stop'] = True
         if r.random() < 0.2:
             o['buffer'] = True
+        if r.random() < 0.3:
+            o['color'] = True
         return o
     # mostly-good worlds so that "passed" verdicts are exercised as often as
     # "failed" ones
